@@ -52,6 +52,11 @@ def run(res, ctx):
                 continue
             name = r["af"] if r.get("af") is not None else "Default"
             byid.setdefault(core.af_id(name)[0], name)
+        inits = {}
+        if rng.random() < 0.2:
+            # an opening position: the default affiliate holds shares, possibly without a row of its own
+            inits["FOO"] = (core.D(rng.randint(1, 40)), core.D(rng.randint(0, 50000), 2))
+            byid.setdefault(core.af_id("Default")[0], "Default")
         afs = [byid[i] for i in sorted(byid)]
         glob = rng.random() < 0.5
         if glob:
@@ -64,8 +69,8 @@ def run(res, ctx):
         near = [r for r in rows if r["act"] == "Split" and (abs(r["td"] - day) <= 3 or abs(r["sd"] - day) <= 3)]
         if near:
             continue
-        orig.append({"rows": rows, "inits": {}})
-        split.append({"rows": rows[:k] + ins + tail, "inits": {}})
+        orig.append({"rows": rows, "inits": inits})
+        split.append({"rows": rows[:k] + ins + tail, "inits": inits})
         meta.append((k, len(ins) if not glob else len(afs), f, ratio, glob))
     ra = corecheck.run_cases(ctx, orig)
     rb = corecheck.run_cases(ctx, split)
